@@ -37,7 +37,7 @@ EXEC_NOTE = ("Trusted: TLC, the renderer from abstract documents to request text
              "recorded in known_findings.json are attributed by a second oracle M(K) computed by TLC, everything else is a violation.")
 for pid, txt in {
     "C01": "data and operation choice of every case equal Sem!Response (selection semantics with fragment expansion, key merging, lists mirrored, leaf values, __typename)",
-    "C06": "every single resolver call of each request is made to fail in turn (pairs in the thorough tier); the error paths (multiset) and the data must equal Sem's",
+    "C06": "every single resolver call site of each request is made to fail in turn (pairs in the thorough tier), and where one root resolver is invoked several times for one response key each single invocation (family faultcall); the error paths (multiset) and the data must equal Sem's",
     "C09": "all 7x7 states of @skip/@include x both orders x field/inline/spread x two depths: response keys and resolver call log must equal Sem's",
     "C11": "sessions of MCReuse.tla (one parse, up to 3-4 resolves with every sequence of operation/variable choices) replayed on one real Executable: every response must equal Sem's for a fresh parse and the printed form must not change (action property ParsedUnchanged in the specification)",
     "C02": "the common-feature families executed on all strategies (Resolver objects, AnyResolver, reflection bound by name / RegisterType / @go) and on mixed graphs with every node assignment: each response must equal Sem's, and each call must be served by the strategy the precedence rule Sem!Via prescribes",
